@@ -157,7 +157,7 @@ func H05_History() { history(true, false) }
 func H13_History() { history(false, true) }
 
 func history(check05, check13 bool) {
-	algos := []string{"epidemic", "spray", "binary_spray", "dtlsr", "prophet"}
+	algos := []string{"epidemic", "spray", "binary_spray", "dtlsr", "prophet", "sensor-mule"}
 	n := newNode(algos[verif.Param("algo", 0)])
 	defer func() { n.c.Close() }()
 	depth := verif.Size("depth", 1, verif.Param("depth", 3))
@@ -330,9 +330,14 @@ func (n *node) checkOffers(before int) {
 		// epidemic: on a retry tick and whenever a peer appears, every connected peer that does not have a stored
 		// bundle yet (no successful transmission to it) is offered the bundle - unless the destination itself is
 		// connected (direct delivery bypasses the algorithm)
-		if n.algo == "epidemic" && !n.up[2] && (ev == 4 || ev == 1 || ev == 2 || ev == 6) {
+		if (n.algo == "epidemic" || n.algo == "sensor-mule") && !n.up[2] && (ev == 4 || ev == 1 || ev == 2 || ev == 6) {
 			for i := 0; i < 2; i++ {
 				if !n.up[i] || n.delivered(a, i, before) || a.from == i+1 {
+					continue
+				}
+				if n.algo == "sensor-mule" && i == 0 {
+					// peer 1 is a sensor: a mule hands it only bundles addressed to it
+					verif.Assert(!sentTo(a, 0), "a data mule does not hand a sensor a bundle that is not addressed to it")
 					continue
 				}
 				verif.Assert(sentTo(a, i), "epidemic: a retry offers a stored bundle to every connected peer that does not have it yet")
